@@ -519,6 +519,8 @@ class SchedModel:
             q = self.T.resolve_callee(self.fn, e)
             if q in self.activation_funcs and e.args and dotted(e.args[0]) == xn:
                 return ("ACTIVE", True)
+            if q in self.activation_funcs and isinstance(e.func, ast.Attribute) and dotted(e.func.value) == xn:
+                return ("ACTIVE", True)
         if isinstance(e, ast.Compare) and len(e.ops) == 1:
             l, op, r = e.left, e.ops[0], e.comparators[0]
             # normalise constant on the right
@@ -890,6 +892,15 @@ def activation_functions(ctx: Ctx) -> Set[str]:
                     rt = ctx.T.ann(g.module, g.node.returns)  # type: ignore[attr-defined]
                     if reads_active and rt == ("bool",):
                         out.add(q)
+            # the same predicate written as a method of the node class: (self, results) -> bool reading self.active
+            if g.cls is not None and g.parent is None and len(ps) == 2 and any(c_.qualname == EX for c_ in ctx.P.mro(g.cls)) \
+                    and not g.node.decorator_list:  # type: ignore[attr-defined]
+                reads_active = any(isinstance(n, ast.Attribute) and n.attr == "active" and dotted(n.value) == ps[0].arg
+                                   for n in iter_own_nodes(g.node))
+                rt = ctx.T.ann(g.module, g.node.returns)  # type: ignore[attr-defined]
+                derefs = any(isinstance(n, ast.Call) and isinstance(n.func, ast.Attribute) and n.func.attr == "result" for n in iter_own_nodes(g.node))
+                if reads_active and derefs and rt == ("bool",):
+                    out.add(q)
         return out
     return ctx.memo("activation_functions", build)
 
@@ -1025,6 +1036,18 @@ def analyse_wait_helper(ctx: Ctx, h: FuncInfo) -> Optional[WaitHelper]:
             break
         if isinstance(s, ast.If) and _is_empty_test(s.test, p_running) and s.body and isinstance(s.body[-1], ast.Return):
             early = True
+    if not early:
+        # the same guard as an enclosing condition: the wait is only reached with a non-empty set
+        from .ctx import enclosing_stmt_chain
+        from .rules.val import reach_conditions
+
+        st_ = next((x for x in reversed(enclosing_stmt_chain(h.node, wait_call)) if isinstance(x, ast.stmt)), None)
+        for c_, pol_ in (reach_conditions(h.node, st_) or []) if st_ is not None else []:
+            src_ = norm_src(c_)
+            if (not pol_ and _is_empty_test(c_, p_running)) or \
+                    (pol_ and src_ in (p_running, f"len({p_running})", f"len({p_running}) != 0", f"len({p_running}) > 0", f"len({p_running}) >= 1",
+                                       f"0 != len({p_running})", f"0 < len({p_running})")):
+                early = True
     # graph / runnable parameters and the done loop
     GRAPH = ctx.cls_q("DiGraphEx")
     p_graph = next((p for p in params if T.is_instance(T.env(h).get(p, ("any",)), GRAPH)), None)
